@@ -1,7 +1,7 @@
 """C08 — Study tiling is a lossless, centred partition of the image into 256-pixel tiles."""
 PROPERTY = "C08"
 LEVEL = "proof"
-CONTRACT_MODULES = ["contracts.specfuns", "contracts.pyramid", "contracts.study"]
+CONTRACT_MODULES = ["contracts.specfuns", "contracts.pyramid", "contracts.image", "contracts.merge", "contracts.study"]
 FUNCTIONS = [
     "toasty.pyramid.next_highest_power_of_2",
     "toasty.study.StudyTiling.__init__",
@@ -9,6 +9,7 @@ FUNCTIONS = [
     "toasty.study.StudyTiling.generate_populated_positions",
     "toasty.study.StudyTiling.compute_for_subimage",
     "toasty.study.StudyTiling.image_to_tile",
+    "toasty.study.StudyTiling.tile_image",
 ]
 LEMMAS = []
 SLOW = ()
